@@ -134,6 +134,63 @@ pub fn template_programs() -> Vec<(String, Flags)> {
     v
 }
 
+/// Case-insensitive backreference programs over characters whose case partners differ in encoded
+/// length (UTF-8 and UTF-16): the referenced text and the text it must match have different byte
+/// lengths, at either end of the input.
+const FOLD_FAMILIES: [&[&str]; 8] = [
+    &["k", "K", "\u{212A}"], &["s", "S", "\u{17F}"], &["\u{E5}", "\u{C5}", "\u{212B}"], &["\u{3C9}", "\u{3A9}", "\u{2126}"],
+    &["\u{DF}", "\u{1E9E}"], &["\u{240}", "\u{2C7F}"], &["\u{10428}", "\u{10400}"], &["\u{3B8}", "\u{3D1}", "\u{3F4}", "\u{398}"],
+];
+
+pub fn foldref_programs() -> Vec<(String, Flags)> {
+    let skeletons = ["({L})\\1", "^({L})\\1$", "(?<=\\1({L}))", "({L})(?<=\\1)", "(?:({L})\\1)+", "(?<a>{L})\\k<a>$", "({L})x?\\1", "({L}{L})\\1", "({L})(?=\\1)", "(?<!\\1({L}))!", "({L}+)\\1", "({L})\\1{2}"];
+    let mut v = Vec::new();
+    for fam in FOLD_FAMILIES {
+        for l in fam.iter() {
+            for sk in skeletons {
+                let p = sk.replace("{L}", l);
+                for fl in ["i", "iu", "iv"] {
+                    v.push((p.clone(), Flags::from_str(fl)));
+                }
+            }
+        }
+    }
+    v
+}
+
+pub fn foldref_haystacks(pattern: &str) -> Vec<String> {
+    let mut v = Vec::new();
+    for fam in FOLD_FAMILIES {
+        if !fam.iter().any(|m| pattern.contains(m)) {
+            continue;
+        }
+        let mut seqs: Vec<String> = Vec::new();
+        for a in fam.iter() {
+            for b in fam.iter() {
+                seqs.push(format!("{}{}", a, b));
+                for c in fam.iter() {
+                    seqs.push(format!("{}{}{}", a, b, c));
+                }
+            }
+        }
+        for a in fam.iter() {
+            for b in fam.iter() {
+                seqs.push(format!("{}{}{}{}", a, b, b, a));
+                seqs.push(format!("{}{}{}{}", a, a, b, b));
+                seqs.push(format!("{}x{}", a, b));
+            }
+        }
+        for s in seqs {
+            for pre in ["", "x"] {
+                for post in ["", "!"] {
+                    v.push(format!("{}{}{}", pre, s, post));
+                }
+            }
+        }
+    }
+    v
+}
+
 /// Haystacks for template programs: the literals themselves followed / preceded by the
 /// characters the skeletons look for.
 pub fn template_haystacks() -> Vec<String> {
@@ -185,6 +242,13 @@ pub fn for_each_program(cfg: &Cfg, rep: &mut Report, spec: &StreamSpec, mut f: i
         for (pat, fl) in template_programs() {
             idx += 1;
             let p = Program { idx, pattern: engine::to_cps(&pat), flags: fl, mentioned: mentioned_guess(&pat), source: "template" };
+            run_one(p, rep);
+        }
+    }
+    if spec.templates {
+        for (pat, fl) in foldref_programs() {
+            idx += 1;
+            let p = Program { idx, pattern: engine::to_cps(&pat), flags: fl, mentioned: mentioned_guess(&pat), source: "foldref" };
             run_one(p, rep);
         }
     }
@@ -241,6 +305,13 @@ fn mentioned_guess(pat: &str) -> Vec<u32> {
 /// Haystacks for a program: all strings up to a length bound over its relevant alphabet, plus
 /// random longer ones with varied alignment.
 pub fn haystacks(p: &Program, rng: &mut Rng, budget: usize, n_long: usize, ascii_only: bool) -> Vec<String> {
+    if p.source == "foldref" {
+        let mut v = foldref_haystacks(&p.pattern_lossy());
+        if ascii_only {
+            v.retain(|s| s.is_ascii());
+        }
+        return v;
+    }
     if p.source == "template" {
         let mut v = template_haystacks();
         if ascii_only {
